@@ -656,10 +656,16 @@ func checkStalenessHasReason(p *core.Prog, r *core.Result) {
 				return
 			}
 			fromCarrier, extraFalse := false, false
-			for _, e := range ph.Edges {
+			pfs := p.PhiEdgeFacts(ph)
+			for i, e := range ph.Edges {
 				if core.Unwrap(e) == ssa.Value(car.phi) {
 					fromCarrier = true
 				} else if b, isConst := core.ConstBool(e); isConst && !b {
+					// a fourth reason: a dependency the last execution recorded is no longer declared
+					if i < len(pfs) && removedDependencyFact(p, pfs[i]) {
+						r.OK("R2.6", fmt.Sprintf("%s#marks-out-of-date:removed-dependency", fname(fnHost)), p.InstrPos(ph), "the dependencies are also out of date where a dependency recorded by the last execution is no longer declared (a failed lookup of a key of info.Dependencies among the current dependencies)")
+						continue
+					}
 					extraFalse = true
 				}
 			}
@@ -842,4 +848,72 @@ func variadicOperandsOf(c *ssa.Call) []ssa.Value {
 		}
 	}
 	return out
+}
+
+// removedDependencyFact: the facts say that a list is non-empty to which elements are appended only where a key of the
+// recorded dependencies (a range over targetInfo.Dependencies) was looked up without success in another map (the
+// current dependencies' stamps).
+func removedDependencyFact(p *core.Prog, fs core.FactSet) bool {
+	fromRecorded := func(k ssa.Value) bool {
+		return core.DependsOn(k, core.SliceOpts{}, func(v ssa.Value) bool {
+			nx, ok := v.(*ssa.Next)
+			if !ok {
+				return false
+			}
+			rg, ok := nx.Iter.(*ssa.Range)
+			return ok && core.LoadOfField(rg.X, pkgRoot, "targetInfo", "Dependencies")
+		})
+	}
+	failedLookupOfRecorded := func(at ssa.Instruction) bool {
+		return p.FactsAt(at).Find(func(c ssa.Value, val bool) bool {
+			e, ok := c.(*ssa.Extract)
+			if !ok || e.Index != 1 || val {
+				return false
+			}
+			lk, ok := e.Tuple.(*ssa.Lookup)
+			return ok && lk.CommaOk && fromRecorded(lk.Index) && !core.LoadOfField(lk.X, pkgRoot, "targetInfo", "Dependencies")
+		})
+	}
+	var appendsOK func(v ssa.Value, seen map[ssa.Value]bool) bool
+	appendsOK = func(v ssa.Value, seen map[ssa.Value]bool) bool {
+		if seen[v] {
+			return true
+		}
+		seen[v] = true
+		switch x := v.(type) {
+		case *ssa.Phi:
+			for _, e := range x.Edges {
+				if !appendsOK(e, seen) {
+					return false
+				}
+			}
+			return true
+		case *ssa.Const:
+			return x.IsNil()
+		case *ssa.Call:
+			if b, ok := x.Call.Value.(*ssa.Builtin); ok && b.Name() == "append" {
+				return failedLookupOfRecorded(x) && appendsOK(x.Call.Args[0], seen)
+			}
+		}
+		return false
+	}
+	return fs.Find(func(c ssa.Value, val bool) bool {
+		b, ok := c.(*ssa.BinOp)
+		if !ok {
+			return false
+		}
+		ln, ok := b.X.(*ssa.Call)
+		if !ok {
+			return false
+		}
+		bi, ok := ln.Call.Value.(*ssa.Builtin)
+		if !ok || bi.Name() != "len" {
+			return false
+		}
+		if k, isK := core.ConstInt(b.Y); !isK || k != 0 {
+			return false
+		}
+		nonEmpty := (b.Op == token.NEQ && val) || (b.Op == token.GTR && val) || (b.Op == token.EQL && !val)
+		return nonEmpty && appendsOK(ln.Call.Args[0], map[ssa.Value]bool{})
+	})
 }
